@@ -184,6 +184,6 @@ theorem C08_chain_incomplete (env : Env) (rules : List Rule) (r : Rule) (tx : Tx
 /-- non-vacuity: a concrete phase with skip:1 — rule 2 is passed over, rule 3 evaluated -/
 def C08_demoEnv : Env := { op := fun _ _ _ => true, tf := fun _ v => (v, false, false) }
 def C08_demoRule (id : Nat) (skip : Nat) : Rule :=
-  ⟨id, 1, [], [⟨[], none, [], false, []⟩], .pass, 0, skip, [], none, [], false, false, []⟩
+  ⟨id, 1, [], [⟨[], none, [], false, [], 0⟩], .pass, 0, skip, [], none, [], false, false, []⟩
 example : (evalPhase C08_demoEnv [C08_demoRule 1 1, C08_demoRule 2 0, C08_demoRule 3 0] 1 {}).evalLog = [(1, 1), (1, 3)] := by
   decide
